@@ -12,7 +12,7 @@ Definition spec_c17 (co : stat_cfg * list Z) : bool :=
   | [0%Z] => negb (cfg_check c)
   | 1%Z :: rest =>
       cfg_check c &&
-      zlist_eqb rest (cfg_values c ++ cfg_values c ++
+      zlist_eqb rest (cfg_values c ++ cfg_values c ++ cfg_values c ++
                       [0%Z; zN (sc_metric c); zN (iv_metric c); zN (sc_total c); zN (iv_total c)] ++
                       [0%Z; zN (sc_metric c); zN (iv_metric c); zN (sc_total c); zN (iv_total c)])
   | _ => false
